@@ -223,7 +223,7 @@ fn build_partial_eq_body(
         }
     };
     Ok(quote! {
-        fn eq(&self, __other: &Self) -> bool {
+        fn eq(&self, __other: &Self) -> ::core::primitive::bool {
             #body
         }
     })
@@ -246,7 +246,7 @@ fn build_partial_eq_expr(
     let build_expr_by_eq = |by: &Expr| {
         quote! {
             {
-                fn #fn_ident(__this: &#ty, __other: &#ty, __by: impl ::core::ops::Fn(&#ty, &#ty) -> bool) -> bool {
+                fn #fn_ident(__this: &#ty, __other: &#ty, __by: impl ::core::ops::Fn(&#ty, &#ty) -> ::core::primitive::bool) -> ::core::primitive::bool {
                     __by(__this, __other)
                 }
                 #fn_ident(&#this, &#other, #by)
@@ -273,7 +273,7 @@ fn build_partial_eq_expr(
     if let Some(by) = &cmp.partial_ord.by {
         return Ok(quote! {
             {
-                fn #fn_ident(__this: &#ty, __other: &#ty, __by: impl ::core::ops::Fn(&#ty, &#ty) -> ::core::option::Option<::core::cmp::Ordering>) -> bool {
+                fn #fn_ident(__this: &#ty, __other: &#ty, __by: impl ::core::ops::Fn(&#ty, &#ty) -> ::core::option::Option<::core::cmp::Ordering>) -> ::core::primitive::bool {
                     __by(__this, __other) == ::core::option::Option::Some(::core::cmp::Ordering::Equal)
                 }
                 #fn_ident(&#this, &#other, #by)
@@ -288,7 +288,7 @@ fn build_partial_eq_expr(
     if let Some(by) = &field.hattrs.cmp.ord.by {
         return Ok(quote! {
             {
-                fn #fn_ident(__this: &#ty, __other: &#ty, __by: impl ::core::ops::Fn(&#ty, &#ty) -> ::core::cmp::Ordering) -> bool {
+                fn #fn_ident(__this: &#ty, __other: &#ty, __by: impl ::core::ops::Fn(&#ty, &#ty) -> ::core::cmp::Ordering) -> ::core::primitive::bool {
                     __by(__this, __other) == ::core::cmp::Ordering::Equal
                 }
                 #fn_ident(&#this, &#other, #by)
@@ -1116,7 +1116,7 @@ fn build_to_index_fn(variants: &[VariantEntry]) -> TokenStream {
         arms.push(quote!((#pat) => #index,));
     }
     quote! {
-        let __to_index = |__this: &Self| -> usize {
+        let __to_index = |__this: &Self| -> ::core::primitive::usize {
             match __this {
                 #(#arms)*
                 _ => ::core::unreachable!(),
